@@ -739,7 +739,8 @@ func (r *contractRun) monitorReceive(b, send *nom.AccountBlock, d *decoded, stat
 						r.fail("release: Unlock of %s succeeded at frontier time %d, it expired at %d", key, ackT, lk.matureT)
 					}
 					if !preimageOk() {
-						r.fail("release: Unlock of %s succeeded with a preimage (%d bytes, max %d) that does not hash to the lock", key, len(d.preimage), lk.keyMax)
+						r.fail("release: Unlock of %s by %s succeeded with a preimage of %d bytes (KeyMaxSize of the entry: %d, hash type %d) that is not a correct preimage: it is longer than the entry admits or does not hash to the lock; %s %s released to %s",
+						key, addrName(send.Address), len(d.preimage), lk.keyMax, lk.hashType, amt(lk.amount), tokName(lk.tok), addrName(lk.second))
 					}
 				}
 				if len(b.DescendantBlocks) != 1 {
@@ -1962,10 +1963,70 @@ func contractHistory(c *Ctx, id int) {
 		c.Hit("flow-htlc-proxy-" + method)
 		return true
 	}
+	// length-boundary scenario: an entry whose secret has a length at / next to the entry's KeyMaxSize, at 255 / 256 / 257,
+	// at twice the maximum, or one that fits KeyMaxSize only modulo 2^8 (k*256 + j with j <= KeyMaxSize) - the hash lock IS
+	// the digest of that secret, so the length rule alone decides. The hash-locked party (or a third party) presents it
+	// before expiry; the receive is judged by the release monitor and by the Lean state machine (length > KeyMaxSize => refused,
+	// funds stay locked and go back to the depositor after expiry).
+	lenFlow := func() bool {
+		keyMax := []uint8{0, 1, 8, 31, 32, 32, 33, 40, 64, 128, 254, 255}[c.R.Intn(12)]
+		K := int(keyMax)
+		var L int
+		switch c.R.Intn(4) {
+		case 0, 1: // fits only after a wrap-around of a narrow length type
+			L = 256*[]int{1, 1, 1, 2, 3, 4, 8, 16, 32, 63}[c.R.Intn(10)] + c.R.Intn(K+1)
+			if c.R.Intn(3) == 0 {
+				L = 256*(1+c.R.Intn(63)) + K
+			}
+		case 2: // next to the entry's own maximum
+			L = []int{K - 1, K, K + 1, 2 * K, 2*K + 1, K + 256 + 1, K + 255}[c.R.Intn(7)]
+		default: // fixed boundaries of the byte-length encodings
+			L = []int{0, 1, 31, 32, 33, 64, 255, 256, 257, 511, 512, 513, 4096, 16256, 16257}[c.R.Intn(15)]
+		}
+		if L < 0 {
+			L = 0
+		}
+		pre := make([]byte, L)
+		c.R.Read(pre)
+		ty := uint8(c.R.Intn(2))
+		from, hashLocked := pick(users), pick(users)
+		tok := types.ZnnTokenStandard
+		if c.R.Intn(2) == 0 {
+			tok = types.QsrTokenStandard
+		}
+		exp := frontierTime() + 10*int64(8+c.R.Intn(20))
+		b := call(from, types.HtlcContract, tok, qsr(int64(1+c.R.Intn(20))), "Create", definition.ABIHtlc.PackMethodPanic(definition.CreateHtlcMethodName, hashLocked, exp, ty, keyMax, hashOf(ty, pre)))
+		if b == nil {
+			return true
+		}
+		r.preimages[b.Hash] = pre
+		if !advance(2) {
+			return false
+		}
+		by := hashLocked
+		if c.R.Intn(4) == 0 {
+			by = pick(users)
+		}
+		call(by, types.HtlcContract, types.ZnnTokenStandard, zero, "Unlock", definition.ABIHtlc.PackMethodPanic(definition.UnlockHtlcMethodName, b.Hash, pre))
+		switch {
+		case L > K && L%256 <= K:
+			c.Hit("flow-htlc-preimage-length-fits-only-mod-256")
+		case L > K:
+			c.Hit("flow-htlc-preimage-length-above-max")
+		case L == K:
+			c.Hit("flow-htlc-preimage-length-at-max")
+		default:
+			c.Hit("flow-htlc-preimage-length-below-max")
+		}
+		return true
+	}
 	genHtlc := func() bool {
 		y := c.R.Intn(100)
 		if c.R.Intn(8) == 0 {
 			return proxyFlow()
+		}
+		if c.R.Intn(6) == 0 {
+			return lenFlow()
 		}
 		if len(r.htlcs) == 0 && y >= 35 && y < 90 && c.R.Intn(5) != 0 {
 			y = 0 // nothing to release yet: create
@@ -2012,6 +2073,11 @@ func contractHistory(c *Ctx, id int) {
 				am = big.NewInt(0)
 			case 7:
 				exp = 1<<62 + int64(c.R.Intn(1000))
+			case 8: // digest length bounds: empty, twice the size, 255 / 256 / 257, the right size modulo 2^8
+				n := []int{0, 1, 64, 255, 256, 257, 256 + 32, 512 + 32, 256 + 31}[c.R.Intn(9)]
+				lock = make([]byte, n)
+				c.R.Read(lock)
+				c.Hit("htlc-create-digest-length-boundary")
 			}
 			if b := call(from, types.HtlcContract, tok, am, "Create", definition.ABIHtlc.PackMethodPanic(definition.CreateHtlcMethodName, hashLocked, exp, ty, keyMax, lock)); b != nil {
 				r.preimages[b.Hash] = pre
@@ -2228,6 +2294,14 @@ func contractHistory(c *Ctx, id int) {
 				tok = types.QsrTokenStandard
 			case 4:
 				name = "bad name!"
+			case 5, 6: // length bounds of the name: 1, max-1, max, max+1, 2*max, 255, 256, 257, 256+j (fits only modulo 2^8)
+				M := constants.PillarNameLengthMax
+				L := []int{1, M - 1, M, M + 1, 2 * M, 255, 256, 257, 256 + 1 + c.R.Intn(M), 256 + M, 512 + M}[c.R.Intn(11)]
+				name = (name + "-" + strings.Repeat("x", L))[:L]
+				if strings.HasSuffix(name, "-") {
+					name = name[:L-1] + "x"
+				}
+				c.Hit("pillar-register-name-length-boundary")
 			}
 			call(from, types.PillarContract, tok, am, "Register", definition.ABIPillars.PackMethodPanic(definition.RegisterMethodName, name, producer, pick(everyone), uint8(c.R.Intn(101)), uint8(c.R.Intn(120))))
 		case y < 85: // Revoke: owner / other, inside / outside the window, repeated, unknown
